@@ -291,6 +291,20 @@ def allclose_scaled(a, b, tol, scale=None):
     return d <= tol * sc, d / sc
 
 
+def same_with_gaps(a, b, tol):
+    """like allclose_scaled, for results that may hold NaN / inf (degenerate parameters): non-finite entries must be the same
+    non-finite entries at the same places, the finite ones agree relative to the largest finite magnitude"""
+    a, b = np.asarray(a, dtype=float), np.asarray(b, dtype=float)
+    if a.shape != b.shape:
+        return False, float("inf")
+    fa, fb = np.isfinite(a), np.isfinite(b)
+    if not np.array_equal(fa, fb) or not np.array_equal(a[~fa], b[~fb], equal_nan=True):
+        return False, float("nan")
+    if not fa.any():
+        return True, 0.0
+    return allclose_scaled(a[fa], b[fb], tol)
+
+
 # ---------------------------------------------------------------------------
 # C10: inverse models / solvers
 
@@ -638,6 +652,8 @@ def c17_case(rec, hub, rng, tier, which):
                     else:
                         kw[pn] = np.array(v)
                 hist[-1] = "set_prms" + ("(same object)" if mode < 0.35 else "")
+                if rng.random() < 0.5:
+                    kw = dict(reversed(list(kw.items())))  # keyword arguments are given in any order
                 live.lifetime_model.set_prms(**kw)
                 told = {k: np.array(v, dtype=float) for k, v in nt_.items()}
             elif op == "error":
@@ -653,7 +669,11 @@ def c17_case(rec, hub, rng, tier, which):
                     # the model may refuse): the first ones are fine and new
                     good_new = {k_: np.array(v_) * 1.3 for k_, v_ in list(told.items())[:-1]}
                     last_k = list(told.keys())[-1]
-                    for bad_last in (fd.FlodymArray(dims=fd.DimensionSet(dim_list=[bad_dim]), values=np.array([1.0, 2.0])), "three years"):
+                    deg_last = np.array(told[last_k], dtype=float)
+                    if deg_last.size:
+                        deg_last.reshape(-1)[int(rng.integers(0, deg_last.size))] = [0.0, np.nan, -1.0][int(rng.integers(0, 3))]
+                    # ... or holds a degenerate entry (zero, NaN, negative) that the model may refuse or take as it is
+                    for bad_last in (fd.FlodymArray(dims=fd.DimensionSet(dim_list=[bad_dim]), values=np.array([1.0, 2.0])), "three years", deg_last):
                         attempts.append(lambda bl=bad_last: live.lifetime_model.set_prms(**good_new, **{last_k: bl}))
                 for a_ in attempts:
                     try:
@@ -681,16 +701,43 @@ def c17_case(rec, hub, rng, tier, which):
                 live.lifetime_model.sf
                 live.lifetime_model.pdf
             elif op == "compute":
-                live.compute()
+                degenerate = lm is not None and any(not np.all(np.isfinite(v_)) or np.any(np.asarray(v_) <= 0) for v_ in told.values())
+                live_exc = None
+                try:
+                    with np.errstate(all="ignore"):
+                        live.compute()
+                except Exception as e_:
+                    if not degenerate:
+                        raise
+                    live_exc = e_  # the model holds a degenerate parameter (taken as it is by an earlier set_prms): compute may refuse
                 computed = True
-                before = S.results_of(live)
                 # fresh twin from what the live object holds now
                 with hub.pause():
                     twin_lm = S.clone_lm(fd, live.lifetime_model, prms=told) if lm is not None else None
                     twin = S.fresh_stock(fd, live, lm=twin_lm, **{drive_attr: getattr(live, drive_attr).values})
                     if cls_name == "SimpleFlowDrivenStock":
                         twin.outflow.values[...] = live.outflow.values
-                    twin.compute()
+                    twin_exc = None
+                    try:
+                        with np.errstate(all="ignore"):
+                            twin.compute()
+                    except Exception as e_:
+                        if not degenerate:
+                            raise
+                        twin_exc = e_
+                if live_exc is not None or twin_exc is not None:
+                    rec.event(M17, sig=f"{base}|refused-with-degenerate-parameters", cls=f"fresh-twin|{cls_name}|degenerate parameters refused")
+                    if (live_exc is None) != (twin_exc is None):
+                        rec.violation(M17, "compute-with-the-held-parameters-is-refused-on-one-of-live-object-and-fresh-object-only",
+                                      dict(history=list(hist), live=repr(live_exc)[:120], fresh=repr(twin_exc)[:120], cls=cls_name, model=cfg["model"]))
+                    # the user repairs the parameters before going on
+                    repaired = {k_: np.where(np.isfinite(v_) & (np.asarray(v_) > 0), v_, np.nanmax(np.where(np.isfinite(v_) & (np.asarray(v_) > 0), v_, np.nan))) for k_, v_ in told.items()}
+                    live.lifetime_model.set_prms(**{k_: np.array(v_) for k_, v_ in repaired.items()})
+                    told = {k_: np.array(v_, dtype=float) for k_, v_ in repaired.items()}
+                    hist.append("set_prms(repair)")
+                    continue
+                before = S.results_of(live)
+                with hub.pause():
                     T = S.results_of(twin)
                     if lm is not None:
                         T["sf"] = np.asarray(twin.lifetime_model.sf, dtype=float)
@@ -700,13 +747,14 @@ def c17_case(rec, hub, rng, tier, which):
                 rec.event(M17, sig=f"{base}|{'>'.join(hist[-4:])}", cls=f"fresh-twin|{cls_name}{('/' + solver) if solver else ''}|after={hist[-2] if len(hist) > 1 else 'init'}",
                           sample={"class": cls_name, "solver": solver, "history": list(hist)})
                 for k in before:
-                    ok, rel = allclose_scaled(before[k], T[k], 1e-12)
+                    ok, rel = same_with_gaps(before[k], T[k], 1e-12)
                     if not ok:
                         rec.violation(M17, f"recomputed-{('table' if k in ('sf', 'pdf') else 'result')}-differs-from-fresh-object:after-{_last_change(hist)}",
                                       dict(quantity=k, history=list(hist), rel_diff=rel, model=cfg["model"] if lm is not None else None, cls=cls_name))
                         break
                 # compute twice in a row changes nothing
-                live.compute()
+                with np.errstate(all="ignore"):
+                    live.compute()
                 again = S.results_of(live)
                 rec.event(M17, sig=f"twice|{base}", cls=f"compute-twice|{cls_name}")
                 for k in again:
@@ -848,6 +896,50 @@ def c17_user_model_case(rec, hub, rng, tier):
             if not ok:
                 rec.violation(M17, f"recomputed-result-differs-from-fresh-object:user-written-lifetime-model:{what}", dict(quantity=q, base_model=base_name, changed=what, rel_diff=rel, time_items=items))
                 return
+
+
+def one_label_degenerate_case(rec, hub, rng, tier):
+    """A stock-driven model (forward substitution) over several labels of which ONE cannot be solved - nothing of that product survives
+    the period it enters (fixed lifetime below half an interval), so its own inflow is undetermined (inf / NaN).  Every OTHER label
+    must come out exactly as if it had been computed alone."""
+    fd = hub.fd
+    items, gclass = time_grid(rng, tier, str(rng.choice(["unit", "const2", "uneven", "howto"])))
+    items = items[:9]
+    nt = len(items)
+    tdim = fd.Dimension(letter="t", name="time", items=list(items))
+    labels = ["car", "packaging", "bicycle", "ship"][: int(rng.integers(2, 5))]
+    pdim = fd.Dimension(letter="p", name="product", items=labels, dtype=str)
+    dims = fd.DimensionSet(dim_list=[tdim, pdim])
+    dtv = np.diff(np.array(items, dtype=float))
+    bad = int(rng.integers(0, len(labels)))
+    mean = rng.uniform(1.5, 4.0, size=len(labels)) * float(dtv.max())
+    mean[bad] = 0.2 * float(dtv.min())
+    stock = np.cumsum(rng.uniform(1.0, 20.0, size=dims.shape), axis=0) + 10.0
+    joint = fd.StockDrivenDSM(dims=dims, stock=fd.StockArray(dims=dims, values=stock.copy()), lifetime_model=fd.FixedLifetime(dims=dims, time_letter="t", mean=fd.FlodymArray(dims=dims[("p",)], values=mean.copy())), solver="manual", time_letter="t")
+    with quiet(), np.errstate(all="ignore"):
+        try:
+            joint.compute()
+        except Exception as e:
+            rec.skip(M16, f"joint compute with one unsolvable label raised: {type(e).__name__}")
+            return
+        J = S.results_of(joint)
+        for j, lab in enumerate(labels):
+            if j == bad:
+                continue
+            d1 = fd.DimensionSet(dim_list=[tdim])
+            with hub.pause():
+                alone = fd.StockDrivenDSM(dims=d1, stock=fd.StockArray(dims=d1, values=stock[:, j].copy()), lifetime_model=fd.FixedLifetime(dims=d1, time_letter="t", mean=float(mean[j])), solver="manual", time_letter="t")
+                alone.compute()
+                A = S.results_of(alone)
+            rec.event(M16, sig=f"one-label-degenerate|{gclass}|nt={nt}|n={len(labels)}", cls=f"labels|one unsolvable label beside normal ones|{gclass}")
+            for q in A:
+                a = J[q][(slice(None), slice(None), j)] if q.endswith("by_cohort") else J[q][:, j]
+                if np.any(~np.isfinite(A[q])):
+                    continue
+                ok, rel = allclose_scaled(a, A[q], 1e-9)
+                if not ok or np.any(~np.isfinite(a)):
+                    rec.violation(M16, "label-beside-an-unsolvable-label-evolves-differently-when-computed-alone:StockDrivenDSM", dict(quantity=q, label=lab, unsolvable_label=labels[bad], rel_diff=rel, time_items=items))
+                    return
 
 
 def _last_change(hist):
